@@ -150,20 +150,20 @@ Definition line_end (rest : text) : Prop :=
    name stands in the text.  The parser is at the start of the line, knows the start states
    [names] and has seen no rule of that name. *)
 Definition rule_line_roundtrip_stmt : Prop :=
-  forall awc pe last src pre rest st errs names rl r,
+  forall awc pe iw last src pre rest st errs names rl r,
     src = pre ++ print_rline rl r ++ rest -> line_end rest ->
     wf_arule awc names r = true -> wf_rline awc last rl = true ->
     forallb is_start_state_name names = true ->
     states_numbered names (start_states st) ->
     (forall n, a_name r = Some n -> find_dupe (rules st) n = None) ->
-    parse_rule src pe [] repaired (byte_len pre) st errs =
+    parse_rule src pe iw [] repaired (byte_len pre) st errs =
       TOk (byte_len (pre ++ print_rline rl r),
-           push_rule st (rule_of pe names (byte_len pre) rl r)) errs.
+           push_rule st (rule_of pe iw names (byte_len pre) rl r)) errs.
 
 (* the span the rule of a printed line carries selects the name in the text *)
 Definition rule_line_span_stmt : Prop :=
-  forall pe names pre rest rl r n, a_name r = Some n ->
-    selects (pre ++ print_rline rl r ++ rest) (r_name_span (rule_of pe names (byte_len pre) rl r)) n.
+  forall pe iw names pre rest rl r n, a_name r = Some n ->
+    selects (pre ++ print_rline rl r ++ rest) (r_name_span (rule_of pe iw names (byte_len pre) rl r)) n.
 
 (* the declarations section parses to the declared states, in order, numbered from 1 behind
    INITIAL, with their kind and the place of their name; the parser stops behind the blanks
@@ -177,27 +177,28 @@ Definition declarations_roundtrip_stmt : Prop :=
       TOk (byte_len (print_decl_section lay sp),
            {| rules := []; start_states := states_of_spec lay sp |}) [].
 
-(* the whole round trip, for every setting of allow_wholeline_comments and posix_escapes
+(* the whole round trip, for every setting of allow_wholeline_comments, posix_escapes and
+   ignore_whitespace
    (no %grmtools header: the parser starts at offset 0; every regex compiles: re_bad = []) *)
 Definition lex_roundtrip_stmt : Prop :=
-  forall awc pe lay sp,
+  forall awc pe iw lay sp,
     wf_aspec awc sp = true -> wf_layout awc lay sp = true ->
-    lex_from_str repaired (print_spec lay sp) 0 awc pe [] = Done (POk (spec_of pe lay sp)).
+    lex_from_str repaired (print_spec lay sp) 0 awc pe iw [] = Done (POk (spec_of pe iw lay sp)).
 
-(* the documented defaults of the two flags *)
+(* the documented defaults of the three flags *)
 Definition lex_roundtrip_default_stmt : Prop :=
   forall lay sp,
     wf_aspec false sp = true -> wf_layout false lay sp = true ->
-    lex_from_str repaired (print_spec lay sp) 0 false false [] = Done (POk (spec_of false lay sp)).
+    lex_from_str repaired (print_spec lay sp) 0 false false false [] = Done (POk (spec_of false false lay sp)).
 
 (* what [spec_of] is, read without the printer: rules in order, one per abstract rule, with
    name, unescaped regex, ids by declaration order, target; states INITIAL + declared, numbered *)
 Definition spec_of_faithful_stmt : Prop :=
-  forall awc pe lay sp, length (l_rlines lay) = length (a_rules sp) ->
+  forall awc pe iw lay sp, length (l_rlines lay) = length (a_rules sp) ->
     wf_dlines awc (l_dlines lay) (a_states sp) = true ->
-    let st := spec_of pe lay sp in
+    let st := spec_of pe iw lay sp in
     map r_name (rules st) = map a_name (a_rules sp) /\
-    map r_re_str (rules st) = map (fun r => map_escapes pe (a_re r)) (a_rules sp) /\
+    map r_re_str (rules st) = map (fun r => map_escapes iw pe (a_re r)) (a_rules sp) /\
     map r_start_states (rules st) =
       map (fun r => map (fun n => index_of n (state_names sp)) (a_pre r)) (a_rules sp) /\
     map r_target (rules st) = map (fun r => target_of (state_names sp) (a_target r)) (a_rules sp) /\
@@ -246,8 +247,8 @@ Definition ex_layout (awc : bool) : layout :=
 
 Definition roundtrip_example_stmt : Prop :=
   (forall awc, wf_aspec awc ex_spec = true /\ wf_layout awc (ex_layout awc) ex_spec = true) /\
-  map r_re_str (rules (spec_of false (ex_layout true) ex_spec)) =
+  map r_re_str (rules (spec_of false false (ex_layout true) ex_spec)) =
     [t [34;97;32]; t [91;32;92;116;93;43]; t [120]; t [98;92;92]] /\
-  map r_start_states (rules (spec_of false (ex_layout true) ex_spec)) = [[0; 1]; []; [1]; []] /\
-  map r_target (rules (spec_of false (ex_layout true) ex_spec)) =
+  map r_start_states (rules (spec_of false false (ex_layout true) ex_spec)) = [[0; 1]; []; [1]; []] /\
+  map r_target (rules (spec_of false false (ex_layout true) ex_spec)) =
     [Some (1, Push); None; Some (2, Pop); Some (3, ReplaceStack)].
